@@ -206,6 +206,44 @@ def auto_ctor_fn_edits(sf, lo, hi, ed, log, where, protected=()):
         i += 1
 
 
+def auto_and_then_edits(sf, lo, hi, ed, log, where, protected):
+    """R12 (only when requested by the spec): `let x = RECV.and_then(|p| BODY);` where the closure captures a `&mut` (outside Verus)
+    becomes `let x = match RECV { Ok(p) => BODY, Err(e__) => Err(e__) };` - the definition of Result::and_then in std."""
+    toks = sf.toks
+    i = lo
+    while i < hi - 4:
+        if toks[i].text == 'and_then' and toks[i - 1].text == '.' and toks[i + 1].text == '(' and toks[i + 2].text == '|':
+            e = match_close(toks, i + 1)
+            if toks[e + 1].text != ';':
+                raise Undecided('%s: R12 needs `.and_then(..)` to end a let statement' % where)
+            # closure parameter: a single identifier
+            if not (toks[i + 3].kind == 'ident' and toks[i + 4].text == '|'):
+                raise Undecided('%s: R12 needs a single-identifier closure parameter' % where)
+            # receiver: back to the `=` of the enclosing let (depth 0)
+            k = i - 2
+            depth = 0
+            while k > lo:
+                t = toks[k].text
+                if t in (')', ']', '}'):
+                    depth += 1
+                elif t in ('(', '[', '{'):
+                    depth -= 1
+                elif t == '=' and depth == 0:
+                    break
+                elif t == ';' and depth == 0:
+                    raise Undecided('%s: R12 could not find the let initializer' % where)
+                k -= 1
+            recv_lo = k + 1
+            param = toks[i + 3].text
+            ed.add(toks[recv_lo].start, toks[recv_lo].start, 'match ')
+            ed.add(toks[i - 1].start, toks[i + 4].end, ' { Ok(%s) => ' % param)
+            ed.add(toks[e].start, toks[e].end, ', Err(e__) => Err(e__) }')
+            protected.append((i - 1, i + 5))
+            log.rw('R12', where, '.and_then(|%s| ..)' % param, 'match .. { Ok(%s) => .., Err(e__) => Err(e__) }  (definition of Result::and_then)' % param)
+            i = e
+        i += 1
+
+
 def loop_sites(sf, lo, hi):
     """Token indices of the body `{` of each loop (while / for / loop) in [lo,hi), in source order."""
     toks = sf.toks
@@ -259,7 +297,8 @@ def closure_sites(sf, lo, hi):
 class FnSpec:
     def __init__(self, name, requires=None, ensures=None, decreases=None, ret='r', loops=None, hints=None,
                  rewrites=None, mode='verify', props=(), canary=None, attrs=None, closures=None,
-                 head_proof=None, note=None, rename=None, no_unwind=False, params=None, head_ghost=None):
+                 head_proof=None, note=None, rename=None, no_unwind=False, params=None, head_ghost=None, nested=None,
+                 inline_and_then=False):
         self.name = name
         self.requires, self.ensures, self.decreases = requires, ensures, decreases
         self.ret = ret
@@ -277,6 +316,8 @@ class FnSpec:
         self.no_unwind = no_unwind
         self.params = params              # {param name: new pattern}  (rarely needed)
         self.head_ghost = head_ghost      # ghost `let` statements inserted at the start of the body (spec-only)
+        self.inline_and_then = inline_and_then
+        self.nested = nested or {}        # contracts of fn items nested in the body: name -> {'ret', 'requires', 'ensures'}
 
 
 def weave_fn(sf, it, spec, log, where, canary=False):
@@ -357,6 +398,30 @@ def weave_fn(sf, it, spec, log, where, canary=False):
         ed.add(body_open.end, body_open.end, '\n ' + spec.head_ghost + '\n')
     if spec.head_proof and spec.mode == 'verify':
         ed.add(body_open.end, body_open.end, '\n proof { ' + spec.head_proof + ' }\n')
+    # contracts of nested fn items (a fn declared inside the body is verified separately by Verus and needs its own contract)
+    if spec.nested and spec.mode == 'verify':
+        for nname, ns in spec.nested.items():
+            hits = [k for k in range(it.body_lo + 1, it.body_hi) if toks[k].text == 'fn' and toks[k + 1].text == nname]
+            if not hits:
+                if not canary:
+                    log.rw('nested-skipped', where, 'fn ' + nname, '(nested fn absent in current source: contract not woven)')
+                continue
+            if len(hits) != 1:
+                raise Undecided('%s: nested fn %s found %d times' % (where, nname, len(hits)))
+            k = hits[0]
+            j = k + 2
+            while toks[j].text != '(':
+                j += 1
+            j = match_close(toks, j) + 1
+            while toks[j].text != '{':
+                if toks[j].text in ('(', '['):
+                    j = match_close(toks, j)
+                j += 1
+            from rustlex import Item
+            pseudo = Item('fn', nname, '', k, k, k, match_close(toks, j) + 1, j, match_close(toks, j), [])
+            nspec = FnSpec(nname, requires=ns.get('requires'), ensures=ns.get('ensures'), ret=ns.get('ret', 'r'))
+            _name_ret(sf, pseudo, j, nspec, ed, log, where)
+            ed.add(toks[j].start, toks[j].start, _contract_text(nspec, False))
     # loops
     if spec.loops and spec.mode == 'verify':
         sites = loop_sites(sf, it.body_lo + 1, it.body_hi)
@@ -443,6 +508,8 @@ def weave_fn(sf, it, spec, log, where, canary=False):
                 ed.add(toks[j - 1].end, toks[j - 1].end, ' }')
                 if not canary:
                     log.rw('R9', where, 'closure body `%s`' % sf.text[nxt.start:toks[j - 1].end][:80], 'wrapped in a block to carry its contract')
+    if spec.inline_and_then:
+        auto_and_then_edits(sf, it.body_lo, it.body_hi, ed, log if not canary else Log(), where, protected)
     closure_underscore_edits(sf, it.body_lo, it.body_hi, ed, log, where, protected)
     auto_array_let_edits(sf, it.body_lo, it.body_hi, ed, log, where, protected)
     auto_ctor_fn_edits(sf, it.body_lo, it.body_hi, ed, log, where, protected)
